@@ -9,6 +9,7 @@ import (
 	"sync"
 	"time"
 
+	"github.com/nsqio/nsq/nsqd"
 	"verifharness/lib"
 	"verifharness/nsqdlib"
 )
@@ -369,7 +370,39 @@ func (cr *caseRun) drain() {
 	}
 }
 
+// caseTimeout: far above what any case needs (seconds); a case still running then has hit
+// a daemon, connection or request that no longer answers
+const caseTimeout = 240 * time.Second
+
+// hungCase reports an abandoned case: its trace so far, closed by EHung
+func hungCase(cr *caseRun, name string, input map[string]interface{}) lib.Case {
+	var evs []string
+	memq := int64(0)
+	maxmsg := int64(0)
+	if cr != nil {
+		evs = append(evs, cr.events...)
+		memq = cr.memq
+		maxmsg = int64(cr.opts.MaxMsgTimeout)
+	}
+	evs = append(evs, "EHung")
+	coq := fmt.Sprintf(wrapPre+"(mkCase (mkCfg %d %s) [\n%s])"+wrapPost, memq, z(maxmsg), strings.Join(evs, ";\n"))
+	return lib.Case{Name: name + "-hung", Coq: coq, Input: input, Tags: []string{"case-hung"}, Nontrivial: true,
+		Obs: map[string]interface{}{"events": len(evs), "unsettled_waits": 0}}
+}
+
 func runCase(seed uint64, name, profile string, nops int, memq int64) lib.Case {
+	var slot *caseRun
+	done := make(chan lib.Case, 1)
+	go func() { done <- runCaseIn(&slot, seed, name, profile, nops, memq) }()
+	select {
+	case c := <-done:
+		return c
+	case <-time.After(caseTimeout):
+		return hungCase(slot, name, map[string]interface{}{"seed": seed, "profile": profile, "nops": nops, "memq": memq, "name": name})
+	}
+}
+
+func runCaseIn(slot **caseRun, seed uint64, name, profile string, nops int, memq int64) lib.Case {
 	r := lib.NewRand(seed)
 	dir := nsqdlib.ScratchDir()
 	opts := nsqdlib.NewOpts(dir)
@@ -390,6 +423,7 @@ func runCase(seed uint64, name, profile string, nops int, memq int64) lib.Case {
 		clients: map[int]*shClient{}, topics: map[int]bool{}, chans: map[[2]int]bool{},
 		tpaused: map[int]bool{}, cpaused: map[[2]int]bool{}, tags: map[string]int{},
 		hadClient: map[[2]int]bool{}, hadChan: map[int]bool{}}
+	*slot = cr
 	cr.startDaemon()
 	w := profiles[profile]
 	// a starting configuration: one or two channels with consumers, so that traffic flows
@@ -492,20 +526,33 @@ func main() {
 			defer wg.Done()
 			defer func() { <-sem }()
 			res[i] = runCase(ins[i].Seed, ins[i].Name, ins[i].Profile, ins[i].Nops, ins[i].Memq)
+			o.Emit(res[i]) // as soon as it is known: a later hang must not lose it
 		}(i)
 	}
 	wg.Wait()
+	nrandom := len(res)
 	// forced interleavings: one at a time (verifPoint actions are process-global)
 	emitted := map[string]bool{}
 	for _, in := range fine {
 		if f, ok := fineScenarios[in.Fine]; ok && !emitted[fmt.Sprintf("%s/%d", in.Fine, in.Seed)] {
 			emitted[fmt.Sprintf("%s/%d", in.Fine, in.Seed)] = true
-			res = append(res, f(in.Seed)...)
+			lastFine = nil
+			done := make(chan []lib.Case, 1)
+			go func() { done <- f(in.Seed) }()
+			select {
+			case cs := <-done:
+				res = append(res, cs...)
+			case <-time.After(caseTimeout):
+				res = append(res, hungCase(lastFine, in.Fine, map[string]interface{}{"seed": in.Seed, "fine": in.Fine}))
+				nsqd.VerifDisarmAll()
+			}
 		}
 	}
 	unsettled := 0
-	for _, c := range res {
-		o.Emit(c)
+	for i, c := range res {
+		if i >= nrandom {
+			o.Emit(c)
+		}
 		if m, ok := c.Obs.(map[string]interface{}); ok {
 			unsettled += m["unsettled_waits"].(int)
 		}
